@@ -50,7 +50,6 @@ HistKds == { X(AsymKey(b, p, NONE, "good"), E0 @@ [extra |-> <<>>]) : b \in {"rs
 HistoryScripts ==
   { <<L("create", "keys", <<bad, k>>)>> : bad \in BadEc, k \in HistKds }
   \cup { <<L("create", "single", <<bad>>), L("load", "single", <<k>>), L("load", "keys", <<bad, k, k>>)>> : bad \in BadEc, k \in HistKds }
-C08Scripts == HistoryScripts \cup { <<L("create", "single", <<k>>)>> : k \in Kds }
-              \cup { <<L("create_strn", "keys", <<k>>)>> : k \in { x \in Kds : Plain(x) } }
-MCSpec == ISpecWith(C08Scripts)
+MCSpec == ISpecFam(<<HistoryScripts, { <<L("create", "single", <<k>>)>> : k \in Kds },
+                     { <<L("create_strn", "keys", <<k>>)>> : k \in { x \in Kds : Plain(x) } }>>)
 =============================================================================
